@@ -560,7 +560,7 @@ pub fn main(args: &Args) {
                 sql: sql.into(),
             })
         };
-        // fixed d49d4e5: LT02 on source bytes 11..14 (2:1) was reported at 1:11
+        // fixed 9a5420e: LT02 on source bytes 11..14 (2:1) was reported at 1:11
         items.push(reg("LT02", Some(colon), &[("x", "1")], "SELECT :x,\n   b  from t\n"));
         items.push(reg("LT01,LT02", Some(colon), &[("x", "1")], "SELECT :x,\n   b  from t\n"));
         items.push(reg("LT01,LT02", Some(colon), &[("x", "some_long_value")], "SELECT :x,\n   b  from t\n"));
